@@ -106,7 +106,7 @@ def _(self, data, sigma_space, sigma_color):
                   or (y >= y_begin and x >= x_begin)))
 
 
-@contract("pandora.filter.median.MedianFilter.filter_disparity", props=["C10"])
+@contract("pandora.filter.median.MedianFilter.filter_disparity", props=["C10", "C04", "C09"])
 def _(self, disp, img_left, img_right, cv):
     types(self={"@attrs": {"_filter_size": "int"}},
           disp={"vars": {"disparity_map": "f32[:,:]", "validity_mask": "u16[:,:]"}, "attrs": {"filter": "str"}},
@@ -146,7 +146,7 @@ def _(self, disp, img_left, img_right, cv):
         and not isinf(old(disp["disparity_map"].data)[y, x])))
 
 
-@contract("pandora.filter.bilateral.BilateralFilter.filter_disparity", props=["C10"])
+@contract("pandora.filter.bilateral.BilateralFilter.filter_disparity", props=["C10", "C04"])
 def _(self, disp, img_left, img_right, cv):
     types(self={"@attrs": {"_sigma_space": "float", "_sigma_color": "float"}},
           disp={"vars": {"disparity_map": "f32[:,:]", "validity_mask": "u16[:,:]"}, "attrs": {"filter": "str"}},
